@@ -88,6 +88,12 @@ func c20Eval(digits map[byte]int64, s string) (*big.Int, bool) {
 	return v, true
 }
 
+var (
+	heldIDs     []id62.UUID
+	heldStrings []string
+	heldCopies  []string
+)
+
 func c20CheckID(c *rt.C, id id62.UUID, class string) {
 	c.Eval(rt.HashBytes(id[:]), true)
 	var s string
@@ -117,6 +123,27 @@ func c20CheckID(c *rt.C, id id62.UUID, class string) {
 	}
 	if back != id {
 		c.Violate("roundtrip/differs", fmt.Sprintf("Parse(String(%x)=%q) = %x", id[:], s, back[:]), map[string]any{"id_hex": hex.EncodeToString(id[:]), "class": class})
+	}
+	// renderings that are kept: what String() returned for earlier identifiers stays what it was ("distinct identifiers
+	// have distinct renderings" is about renderings one holds, not about one call at a time)
+	heldIDs = append(heldIDs, id)
+	heldStrings = append(heldStrings, s)
+	heldCopies = append(heldCopies, strings.Clone(s))
+	if len(heldIDs) == 64 {
+		seen := map[string]int{}
+		for i := range heldIDs {
+			c.Event("held_renderings_rechecked")
+			if heldStrings[i] != heldCopies[i] {
+				c.Violate("held-rendering/changed", fmt.Sprintf("the rendering of %x was %q when String() returned it and reads %q after later String() calls", heldIDs[i][:], heldCopies[i], heldStrings[i]), map[string]any{"id_hex": hex.EncodeToString(heldIDs[i][:])})
+				break
+			}
+			if j, dup := seen[heldStrings[i]]; dup && heldIDs[j] != heldIDs[i] {
+				c.Violate("held-rendering/not-distinct", fmt.Sprintf("%x and %x have the same rendering %q", heldIDs[j][:], heldIDs[i][:], heldStrings[i]), nil)
+				break
+			}
+			seen[heldStrings[i]] = i
+		}
+		heldIDs, heldStrings, heldCopies = nil, nil, nil
 	}
 	if c.WantSample() {
 		c.Sample(map[string]any{"id_hex": hex.EncodeToString(id[:]), "string": s, "class": class})
